@@ -669,7 +669,7 @@ func RunCheck(o Options) int {
 		"wall_s":      time.Since(t0).Seconds(),
 		"violations":  violations,
 	}
-	if o.ReplayOf == "" && o.OnlyCases == "" {
+	if o.ReplayOf == "" && o.OnlyCases == "" && os.Getenv("VCHECK_NOEVIDENCE") == "" {
 		os.MkdirAll(filepath.Join(o.Root, "evidence"), 0o755)
 		eb, _ := json.MarshalIndent(ev, "", " ")
 		os.WriteFile(filepath.Join(o.Root, "evidence", o.ID+".json"), eb, 0o644)
